@@ -68,6 +68,16 @@ const ST0: St = St {
 };
 static mut LISTS: [St; MAXL] = [ST0, ST0, ST0, ST0];
 static mut NEXT_ID: usize = 0;
+/// two-phase (in-flight) enqueues are modelled only when a harness asks for
+/// them; the flag is concrete, so symex prunes that machinery otherwise
+static mut TWO_PHASE: bool = false;
+
+pub(crate) fn set_two_phase(on: bool) {
+    unsafe { TWO_PHASE = on }
+}
+fn two_phase() -> bool {
+    unsafe { TWO_PHASE }
+}
 /// `&TAGS[i]` is the data pointer of the waker of slot i (of any list; the
 /// list is identified by the vtable)
 static TAGS: [u8; MAXSLOT] = [0; MAXSLOT];
@@ -84,6 +94,7 @@ pub(crate) fn model_reset() {
             i += 1;
         }
         NEXT_ID = 0;
+        TWO_PHASE = false;
     }
 }
 
@@ -124,7 +135,7 @@ impl St {
         r
     }
     pub(crate) fn slot_inflight(&self, i: usize) -> bool {
-        if self.inflight == 0 {
+        if !two_phase() || self.inflight == 0 {
             return false;
         }
         let p = self.pos_of(i);
@@ -153,6 +164,7 @@ impl St {
     /// first half of a child wake performed by "another thread":
     /// flag set + enqueue started. Returns true if this call began an enqueue.
     pub(crate) fn wake_begin(&mut self, i: usize) -> bool {
+        assert!(two_phase(), "waker_model: two-phase enqueue not enabled");
         if self.slot_inflight(i) {
             // the slot lock is held by the producer in flight: we would spin
             // until it finishes, then see the flag set.
@@ -169,7 +181,7 @@ impl St {
 
     /// second half: link becomes visible, task notified, slot lock released.
     pub(crate) fn wake_finish(&mut self, i: usize) {
-        if self.inflight == 0 {
+        if !two_phase() || self.inflight == 0 {
             return;
         }
         let p = self.pos_of(i);
@@ -180,7 +192,7 @@ impl St {
     }
 
     pub(crate) fn wake_by_ref(&mut self, i: usize) {
-        if self.inflight == 0 {
+        if !two_phase() || self.inflight == 0 {
             // fast path (nothing in flight): flag, enqueue, notify
             if !self.flag(i) {
                 self.flags |= 1u64 << i;
@@ -352,7 +364,7 @@ impl WakerList {
         crate::verif::sched_point(1);
         let s = self.st();
         let n = s.qlen;
-        let fl = s.inflight;
+        let fl = if two_phase() { s.inflight } else { 0 };
         let r = if n == 0 {
             ReadySlot::None
         } else if fl & 1 != 0 {
